@@ -1249,6 +1249,42 @@ class TttFam(C02Family):
             s2[0] += 1
             out.append({"op": "ttt", "X": rand_holder(rng, "dense", s1), "Y": rand_holder(rng, "dense", s2), "xd": [0], "yd": [0],
                         "valid": False})
+        # repeated extents (added after seed C02u): with pairwise distinct extents the pairing of contracted modes is
+        # forced by the sizes, so a wrong pairing can only be rejected; with repeated extents every ordered pairing of
+        # equal-sized modes is a different, valid request.  Enumerated: operands of equal shape, of permuted shape and
+        # with one extra mode, every ordered k-subset pairing whose extents match (sampled down in the quick tier).
+        import itertools
+        pairs = []
+        for s1 in ([3, 3], [2, 2], [3, 3, 2], [2, 3, 2], [2, 2, 2], [3, 3, 3], [2, 3, 3], [2, 2, 2, 2], [2, 3, 2, 3]):
+            n = len(s1)
+            others = [list(s1), list(reversed(s1)), list(s1) + [2], [s1[-1]] + list(s1[:-1])]
+            seen = set()
+            for s2 in others:
+                if tuple(s2) in seen:
+                    continue
+                seen.add(tuple(s2))
+                for k in range(1, min(n, len(s2)) + 1):
+                    for xd in itertools.permutations(range(n), k):
+                        for yd in itertools.permutations(range(len(s2)), k):
+                            if all(s1[a] == s2[b] for a, b in zip(xd, yd)):
+                                pairs.append((s1, s2, list(xd), list(yd)))
+        # keep the requests in which the two lists are NOT the same ordering (the everyday ones are covered above)
+        crossed = [p for p in pairs if p[2] != p[3]]
+        full = [p for p in crossed if len(p[2]) == len(p[0]) == len(p[1])]
+        part = [p for p in crossed if p not in full]
+        if tier == "quick":
+            full = rng.sample(full, min(len(full), 60))
+            part = rng.sample(part, min(len(part), 60))
+        else:
+            full = rng.sample(full, min(len(full), 600))
+            part = rng.sample(part, min(len(part), 600))
+        for s1, s2, xd, yd in full + part:
+            k = len(xd)
+            out.append({"op": "ttt", "X": rand_holder(rng, "dense", list(s1)), "Y": rand_holder(rng, "dense", list(s2)),
+                        "xd": xd, "yd": yd,
+                        "tag": [f"common{k}", "repeated-extents",
+                                "scalar" if (k == len(s1) == len(s2)) else "partial",
+                                "same-shape" if list(s1) == list(s2) else "other-shape"]})
         return with_layouts(rng, out)
 
 
